@@ -7,6 +7,7 @@ mod queue_conc;
 mod queue_timed;
 mod driver;
 mod net;
+mod nodeh;
 
 fn main() {
     let args: Vec<String> = std::env::args().collect();
@@ -33,6 +34,7 @@ fn main() {
         "net_conc" => net::run_conc(&a),
         "net_limits" => net::run_limits(&a),
         "net_life" => net::run_life(&a),
+        "node" => nodeh::run(&a),
         other => {
             eprintln!("unknown core {}", other);
             std::process::exit(2);
